@@ -297,7 +297,7 @@ func runR051(c *core.Ctx) {
 											// p.finders[...] / p.actions[...] / p.methods[...]
 											if sel, ok := core.Unparen(x.X).(*ast.SelectorExpr); ok {
 												if fv, ok := core.ObjOf(inf, sel).(*types.Var); ok && fv.IsField() {
-													switch fv.Name() {
+													switch core.NameOf(fv) {
 													case "finders", "actions", "methods":
 														k, err := it.Eval(x.Index, env)
 														if err != nil {
@@ -307,7 +307,7 @@ func runR051(c *core.Ctx) {
 														if iv, ok := k.(int64); ok {
 															ks = methodByVal[iv]
 														}
-														return core.Sym{Name: "handler:" + fv.Name() + "[" + ks + "]", Nil: !reg}, true
+														return core.Sym{Name: "handler:" + core.NameOf(fv) + "[" + ks + "]", Nil: !reg}, true
 													}
 												}
 											}
